@@ -17,6 +17,11 @@ from prtpy import outputtypes as out, objectives as obj
 from prtpy.binners import Binner
 from typing import Callable, List, Any
 
+def _python_number(value):
+    """ A numpy scalar (element of an array, value in a dict, result of a value function) as the equal Python number. """
+    return value.item() if isinstance(value, np.generic) else value
+
+
 def partition(
     algorithm: Callable,
     numbins: int,
@@ -76,7 +81,9 @@ def partition(
     else:  # items is a list
         item_names = items
         if valueof is None:
-            valueof = lambda item: item.item() if isinstance(item, np.generic) else item   # a Python number, not a numpy scalar: sums of numpy scalars of a narrow dtype (uint8, int16...) overflow
+            valueof = lambda item: item
+    given_valueof = valueof
+    valueof = lambda item: _python_number(given_valueof(item))   # sums of numpy scalars of a narrow dtype (uint8, int16...) overflow
     binner = outputtype.create_binner(valueof)
     bins   = algorithm(binner, numbins, item_names, **kwargs)
     return outputtype.extract_output_from_binsarray(bins)
